@@ -20,11 +20,11 @@ DriverFacade over an in-memory replication.Storage and a recording drivers.Drive
 A TLC counterexample on the model alone is never a verdict; a verdict needs the real code to show it.
 """
 import concurrent.futures as cf
+import hashlib
 import json
 import os
 import re
 import shutil
-import subprocess
 import time
 
 import vlib
@@ -32,6 +32,35 @@ import vlib
 SIG_RESET = "reset-vs-subscriber-store/late-StorePipelineState"
 INTERNAL_KINDS = ("DriverStart", "DriverStop", "ListLogsErr")
 TRACE_FIELDS = ("k", "ep", "x", "y", "ids", "ok", "name")
+
+
+# ----------------------------------------------------------------------------- storage model guard
+
+# harness/repl/world.go re-implements these four functions of internal/storage/system/store.go in memory
+# (there is no Postgres here).  If their text changes, the in-memory model must be reviewed first: the
+# check refuses to give a verdict rather than judging the code against an outdated storage model.
+STORE_FUNCS = {
+    "StorePipelineState": "b38e8ecf31e8a73b",
+    "UpdatePipeline": "fd73270a1b483292",
+    "GetPipeline": "ed98c2694e699aa9",
+    "ListEnabledPipelines": "400c7a157e48ca3d",
+}
+
+
+def check_storage_model():
+    path = os.path.join(vlib.REPO, "internal", "storage", "system", "store.go")
+    try:
+        src = open(path).read()
+    except OSError as e:
+        raise vlib.Inconclusive("cannot read %s: %s" % (path, e))
+    for name, want in STORE_FUNCS.items():
+        m = re.search(r"func \(d \*DefaultStore\) %s\(.*?\n}\n" % name, src, re.S)
+        if not m:
+            raise vlib.Inconclusive("system/store.go: %s not found; review harness/repl/world.go" % name)
+        got = hashlib.sha1(re.sub(r"\s+", " ", m.group(0)).strip().encode()).hexdigest()[:16]
+        if got != want:
+            raise vlib.Inconclusive("system/store.go: %s changed (%s); review the in-memory storage of harness/repl/world.go "
+                                    "and update STORE_FUNCS in checks/C33.py" % (name, got))
 
 
 # ----------------------------------------------------------------------------- TLC helpers
@@ -64,8 +93,10 @@ def tlc_jobs(tier):
     W = dict(workers=4, timeout=1500)
     if q:
         J.append(("safety_L3_F1", "Replication", cfg_from("Replication_safety.cfg"), W, "hold"))
-        J.append(("safety_L2_F1_late", "Replication", cfg_from("Replication_safety.cfg", MaxLogs=2, LateAccepts="TRUE"), W, "hold"))
-        J.append(("live_L2", "Replication", cfg_from("Replication_live.cfg"), W, "hold"))
+        J.append(("safety_L2_F0_late", "Replication", cfg_from("Replication_safety.cfg", MaxLogs=2, MaxFail=0, LateAccepts="TRUE"), W, "hold"))
+        J.append(("safety_L2_F1_late_norestart", "Replication", cfg_from("Replication_safety.cfg", MaxLogs=2, LateAccepts="TRUE", MaxRestarts=0), dict(workers=2, timeout=1500), "hold"))
+        J.append(("live_L2_F0", "Replication", cfg_from("Replication_live.cfg", MaxFail=0), W, "hold"))
+        J.append(("live_L2_F1_norestart", "Replication", cfg_from("Replication_live.cfg", MaxRestarts=0), dict(workers=2, timeout=1500), "hold"))
         J.append(("join_L2", "Replication", cfg_from("Replication_join.cfg", LateAccepts="FALSE"), W, "hold"))
     else:
         J.append(("safety_L4_F2", "Replication", cfg_from("Replication_safety.cfg", MaxLogs=4, MaxFail=2), dict(workers=5, timeout=2400), "hold"))
@@ -129,16 +160,26 @@ def random_runs(binp, work, seed, total, procs):
     return out
 
 
-def schedule_run(binp, work, name, scheds):
-    prefix = os.path.join(work, name)
-    with open(prefix + ".json", "w") as fh:
-        json.dump(scheds, fh)
-    run_vh(binp, ["schedule", "-in", prefix + ".json", "-out", prefix + ".ev", "-results", prefix + ".res"], 1200)
-    out = load_run(prefix)
-    for r, s in zip(out, scheds):
-        r["uid"] = "%s.%d" % (name, r["t"])
-        r["schedule"] = s
-    return out
+def schedule_run(binp, work, name, scheds, procs=1):
+    """Replay schedules through the gates (in `procs` parallel processes)."""
+    chunks = [scheds[i::procs] for i in range(procs) if scheds[i::procs]]
+
+    def one(k):
+        prefix = os.path.join(work, "%s_%d" % (name, k))
+        with open(prefix + ".json", "w") as fh:
+            json.dump(chunks[k], fh)
+        run_vh(binp, ["schedule", "-in", prefix + ".json", "-out", prefix + ".ev", "-results", prefix + ".res"], 1500)
+        out = load_run(prefix)
+        if len(out) != len(chunks[k]):
+            raise vlib.Inconclusive("vh-repl schedule: %d results for %d schedules" % (len(out), len(chunks[k])))
+        for r, s in zip(out, chunks[k]):
+            r["uid"] = "%s%d.%d" % (name, k, r["t"])
+            r["schedule"] = s
+        return out
+
+    with cf.ThreadPoolExecutor(max_workers=max(1, len(chunks))) as ex:
+        parts = list(ex.map(one, range(len(chunks))))
+    return [r for p in parts for r in p]
 
 
 # ----------------------------------------------------------------------------- trace validation
@@ -356,6 +397,7 @@ def run(c):
     work = vlib.scratch("c33")
     pool = cf.ThreadPoolExecutor(max_workers=7)
     try:
+        check_storage_model()
         binp = vlib.go_build("vh-repl")
 
         # ---- 1. TLC on the specification (runs while the scenarios are executed and validated)
@@ -368,6 +410,7 @@ def run(c):
         rnd = random_runs(binp, work, c.seed, n_rand, 4 if q else 8)
         c.set("random_scenarios", len(rnd))
         c.set("random_scenarios_wall_s", round(time.time() - t0, 1))
+        vlib.log("[c33] %d random scenarios in %.1fs" % (len(rnd), time.time() - t0))
         val_rnd = pool.submit(validate_parallel, c, "random", rnd, work, 2 if q else 6)
 
         # ---- collect TLC results
@@ -375,6 +418,7 @@ def run(c):
         for f in cf.as_completed(futs):
             name, r = f.result()
             results[name] = (r, futs[f])
+        vlib.log("[c33] TLC on the specification done at +%.0fs: %s" % (time.time() - c.t0, ", ".join("%s=%ds/%d" % (n, results[n][0].wall, results[n][0].distinct) for n in sorted(results))))
         schedules = []
         design_findings = []
         for name, (r, job) in sorted(results.items()):
@@ -425,14 +469,15 @@ def run(c):
                 seen = set()
                 for case in vlib.tlc_cases(r.out):
                     key = json.dumps(case, sort_keys=True)
-                    if key in seen:
+                    if key in seen or len(seen) >= 150:
                         continue
                     seen.add(key)
                     schedules.append(dict(id="sim%d_%d" % (ps, len(seen)), pageSize=ps, source="tlc-simulate", steps=case))
                 if len(seen) < 20:
                     raise vlib.Inconclusive("TLC simulation produced only %d schedules" % len(seen))
-        sch = schedule_run(binp, work, "sched", schedules) if schedules else []
+        sch = schedule_run(binp, work, "sched", schedules, 1 if q else 8) if schedules else []
         c.set("schedules_replayed", len(sch))
+        vlib.log("[c33] %d schedules replayed at +%.0fs" % (len(sch), time.time() - c.t0))
         c.set("schedules_followed_to_the_end", sum(1 for s in sch if not s.get("diverged")))
         by_id = {s["id"]: s for s in sch}
         for name in ("nc_subahead", "nc_skiplog"):
@@ -463,6 +508,7 @@ def run(c):
             rej.update(rej2)
             inv.update(inv2)
         c.set("traces_validated_against_impl", len(acc))
+        vlib.log("[c33] trace validation done at +%.0fs: %d accepted, %d rejected" % (time.time() - c.t0, len(acc), len(rej)))
         c.set("traces_rejected", len(rej))
         c.set("trace_events", sum(len(tlc_events(s)) for s in scen))
         nontrivial = sum(1 for s in rnd if s["params"].get("ops") and s["observation"]["produced"] >= 2)
